@@ -179,7 +179,9 @@ RelayMutants(g) ==
    [g EXCEPT !.isLast = ~@], [g EXCEPT !.index = Flip(@, 0)], [g EXCEPT !.slice = 1 - @],
    [g EXCEPT !.index = @ + Total]}
 HonestMC == {HonestShred(sl, i, "L") : sl \in SignedMC, i \in Positions}
-Universe == HonestMC \cup UNION {RelayMutants(g) : g \in HonestMC}
+\* (Byzantine-leader model: relay mutants of the two conflicting first slices only, to keep Total = 8 tractable)
+MutBase == IF MCScn = "correct" THEN HonestMC ELSE {g \in HonestMC : g.sig.over \in {B0, B0x}}
+Universe == HonestMC \cup UNION {RelayMutants(g) : g \in MutBase}
 
 InitStore == st = BsInit(SliceIds)
 NextStore == \E w \in Universe, uc \in BOOLEAN : st' = NodeStep(st, w, uc).bs
